@@ -7,7 +7,7 @@ REPO = os.environ.get('VERIF_REPO', '/repo')
 COQ = os.path.join(ROOT, 'coq')
 BUILD = os.path.join(ROOT, 'build')
 CXX_QUICK = ['g++', '-std=c++14', '-O1', '-g', '-fsanitize=address,undefined', '-fno-sanitize-recover=all']
-ENV = dict(os.environ, ASAN_OPTIONS='detect_leaks=0:abort_on_error=0:max_allocation_size_mb=2048', UBSAN_OPTIONS='print_stacktrace=0')
+ENV = dict(os.environ, ASAN_OPTIONS='detect_leaks=0:abort_on_error=0:max_allocation_size_mb=2048', UBSAN_OPTIONS='print_stacktrace=0', TSAN_OPTIONS='halt_on_error=1:second_deadlock_stack=0')
 
 
 def sh(cmd, timeout=600, inp=None, cwd=None, env=None):
@@ -73,6 +73,16 @@ def check_obligations(pid):
     return theorems, list(theorems), assum, log[-1500:]
 
 
+def coqchk(pid):
+    """Independent re-check of the compiled property file and everything it depends on (thorough tier); returns (ok, summary)."""
+    with Lock('coq.lock'):
+        rc, out, err, dt = sh(['coqchk', '-o', '-silent', '-Q', 'theories', 'BG', 'BG.Properties_%s' % pid], timeout=3000, cwd=COQ)
+    txt = (out + err)
+    m = re.search(r'CONTEXT SUMMARY.*', txt, re.S)
+    summ = ' '.join((m.group(0) if m else txt[-800:]).split())
+    return rc == 0, summ[:1500]
+
+
 def forbidden_scan():
     """No Admitted/admit/Axiom/Parameter/... anywhere in the development."""
     bad = []
@@ -106,13 +116,13 @@ def parse_blocks(text):
     return res, order
 
 
-def run_impl(exe, cases, timeout=600, env=None):
+def run_impl(exe, cases, timeout=600, env=None, wrap=None):
     """Run the harness over all cases; a crash (sanitizer abort, signal) is recorded against the case it happened in and
     the run resumes with the next case.  Returns ({case: [I lines]}, {case: abort text})."""
     results, aborts = {}, {}
     todo = list(cases)
     while todo:
-        rc, out, err, dt = sh([exe], timeout=timeout, inp='\n'.join(todo) + '\n', env=env)
+        rc, out, err, dt = sh((wrap or []) + [exe], timeout=timeout, inp='\n'.join(todo) + '\n', env=env)
         blocks, order = parse_blocks(out)
         for c in order: results[c] = blocks[c]
         if rc == 0:
